@@ -56,13 +56,20 @@ manifest = dict(
         dict(name="symx+symnp", path="symx/ symnp/ harness/ oracles/",
              serves_properties=[c['property_id'] for c in checks],
              kind_free_text="forking symbolic executor on the z3 Python API running the unmodified /repo source through a pure-Python numpy shim over symbolic scalars; per-path differential validation against the real library"),
+        dict(name="cvc5 second opinion", path="symx/second.py",
+             serves_properties=[c['property_id'] for c in checks],
+             kind_free_text="a sample of the discharged property queries (per cube every 37th, at most 2) is exported as SMT-LIB2 with its path condition and re-decided by cvc5; a `sat` answer is a solver disagreement (exit 2)"),
+        dict(name="CrossHair audit", path="audit/",
+             serves_properties=['C03', 'C12'],
+             kind_free_text="thorough tier only: the real source of topological_ordering (C03) and intervention_targets (C12) re-checked by CrossHair (crosshair check --report_all) on its own symbolic floats / ints; result recorded in coverage.audit, a counterexample the primary engine did not find makes the run exit 2"),
     ],
     checks=checks,
     not_applicable=na,
     notes=("Exit codes of every check: 0 = held on everything explored; 1 = VIOLATION (replayed on the real code); 2 = inconclusive / harness "
            "error (never a verdict). known_findings.json lists genuine defects (all currently 'fixed' by fix: commits in /repo). "
-           "`./vcheck selftest` (not part of quick/thorough) applies the mutants in mutants/ and the seeded changes in seeded/ to /repo's "
-           "working tree one at a time and expects each to be reported."),
+           "`./vcheck selftest` (not part of quick/thorough) applies the mutants in mutants/ and the seeded changes in seeded/ to a SCRATCH "
+           "worktree of /repo (never to /repo itself) one at a time and expects each to be reported; seeded changes recorded as documented blind spots "
+           "(machine-arithmetic-only differences) are listed, not run."),
 )
 json.dump(manifest, open(os.path.join(VERIF, 'MANIFEST.json'), 'w'), indent=1)
 print("claimed:", [c['property_id'] for c in checks])
